@@ -1,0 +1,38 @@
+//go:build verif
+
+package fstree
+
+import (
+	"os"
+	"path/filepath"
+
+	"github.com/safing/portbase/database/record"
+)
+
+// VerifDump returns the metadata of every physically stored record (verification harness only).
+func (fst *FSTree) VerifDump() (map[string]record.Meta, error) {
+	all := make(map[string]record.Meta)
+	err := filepath.Walk(fst.basePath, func(path string, info os.FileInfo, err error) error {
+		if err != nil {
+			return err
+		}
+		if info.IsDir() {
+			return nil
+		}
+		data, err := os.ReadFile(path)
+		if err != nil {
+			return err
+		}
+		key, err := filepath.Rel(fst.basePath, path)
+		if err != nil {
+			return err
+		}
+		w, err := record.NewRawWrapper(fst.name, filepath.ToSlash(key), data)
+		if err != nil {
+			return err
+		}
+		all[filepath.ToSlash(key)] = *w.Meta()
+		return nil
+	})
+	return all, err
+}
